@@ -1,5 +1,6 @@
 extern crate iceoryx2_bb_loggers;
 mod common;
+mod c01_pubsub;
 mod c15_alloc;
 mod c16_vec;
 mod c19_names;
@@ -33,6 +34,7 @@ fn main() {
         }};
     }
     match comp {
+        "pubsub" => go!(c01_pubsub::generate, || c01_pubsub::PubSubComp::new()),
         "alloc" => go!(c15_alloc::generate, || c15_alloc::AllocComp::new()),
         "names" => go!(c19_names::generate, || c19_names::NamesComp::new()),
         "vec" => go!(c16_vec::generate, || c16_vec::VecComp::new()),
